@@ -5,7 +5,9 @@ import (
 	"context"
 	"errors"
 	"io"
+	"os"
 	"testing"
+	"time"
 
 	"github.com/aperturerobotics/bifrost/util/rwc"
 	"pgregory.net/rapid"
@@ -26,6 +28,10 @@ type c09Case struct {
 	MaxWrite int   `json:"max_write"`
 	// CapSeed selects which reader buffers have spare capacity behind their length
 	CapSeed int `json:"cap_seed,omitempty"`
+	// PollN > 0: before every third read (offset PollSeed) the reader first polls PollN times with a read deadline
+	// that has already passed (each poll returns data or a timeout), then clears the deadline
+	PollN    int `json:"poll_n,omitempty"`
+	PollSeed int `json:"poll_seed,omitempty"`
 }
 
 func genC09(t *rapid.T) c09Case {
@@ -39,6 +45,8 @@ func genC09(t *rapid.T) c09Case {
 		Writes:   rapid.SliceOfN(rapid.SampledFrom([]int{0, 1, 5, 100, 2048, 5000}), 0, 6).Draw(t, "writes"),
 		MaxWrite: rapid.SampledFrom([]int{0, 1, 3, 1000}).Draw(t, "maxwrite"),
 		CapSeed:  rapid.IntRange(0, 4).Draw(t, "capseed"),
+		PollN:    rapid.SampledFrom([]int{0, 0, 1, 2, 5}).Draw(t, "polln"),
+		PollSeed: rapid.IntRange(0, 2).Draw(t, "pollseed"),
 	}
 }
 
@@ -55,22 +63,49 @@ func checkC09(c c09Case) (o vstat.Outcome) {
 		b    []byte
 		err  error
 		over int
+		// timeoutData: a read reported a timeout together with data
+		timeoutData bool
 	}
 	var reads []rd
+	polls := 0
 	done := make(chan struct{})
 	go func() {
 		defer close(done)
-		for i := 0; i < c.Total+50; i++ {
-			bl := c.Bufs[i%len(c.Bufs)]
-			buf := make([]byte, bl, bl+[]int{0, 0, 7, 64, 4096}[(i+c.CapSeed)%5])
-			n, err := conn.Read(buf)
-			if n > len(buf) {
-				reads = append(reads, rd{b: buf, err: err, over: n})
-				return
+		i := 0
+		for step := 0; step < c.Total+50; step++ {
+			polling := c.PollN > 0 && (step+c.PollSeed)%3 == 0
+			npolls := 1
+			if polling {
+				npolls = c.PollN + 1
 			}
-			reads = append(reads, rd{b: buf[:n], err: err})
-			if err != nil && !errors.Is(err, io.ErrShortBuffer) {
-				return
+			for k := 0; k < npolls; k++ {
+				if polling && k < c.PollN {
+					_ = conn.SetReadDeadline(time.Now().Add(-time.Second))
+					// let queued data be there when the expired read runs
+					time.Sleep(50 * time.Microsecond)
+				} else {
+					_ = conn.SetReadDeadline(time.Time{})
+				}
+				bl := c.Bufs[i%len(c.Bufs)]
+				buf := make([]byte, bl, bl+[]int{0, 0, 7, 64, 4096}[(i+c.CapSeed)%5])
+				n, err := conn.Read(buf)
+				if errors.Is(err, os.ErrDeadlineExceeded) {
+					polls++
+					if n != 0 {
+						reads = append(reads, rd{b: buf[:min(n, len(buf))], err: err, timeoutData: true})
+						return
+					}
+					continue
+				}
+				i++
+				if n > len(buf) {
+					reads = append(reads, rd{b: buf, err: err, over: n})
+					return
+				}
+				reads = append(reads, rd{b: buf[:n], err: err})
+				if err != nil && !errors.Is(err, io.ErrShortBuffer) {
+					return
+				}
 			}
 		}
 	}()
@@ -88,6 +123,9 @@ func checkC09(c c09Case) (o vstat.Outcome) {
 			return vstat.Viol("no-reads", "no read returned")
 		}
 		for i, r := range reads {
+			if r.timeoutData {
+				return vstat.Viol("data-with-timeout", "read %d returned %d bytes together with a timeout", i, len(r.b))
+			}
 			if r.over != 0 {
 				return vstat.Viol("read-count-exceeds-buffer", "read %d returned n=%d for a buffer of %d bytes", i, r.over, len(r.b))
 			}
@@ -145,6 +183,10 @@ func checkC09(c c09Case) (o vstat.Outcome) {
 		o.Classes = append(o.Classes, "short-buffer-read")
 	}
 	o.Classes = append(o.Classes, "term:"+c.Term)
+	if polls > 0 {
+		o.Classes = append(o.Classes, "reads-with-expired-deadline")
+		o.NonTrivial = o.NonTrivial || len(handed) >= 2
+	}
 	// write side: all bytes in order under partial underlying writes
 	cap := newCaptureRWC()
 	cap.maxWrite = c.MaxWrite
@@ -171,7 +213,7 @@ func checkC09(c c09Case) (o vstat.Outcome) {
 
 var specC09 = vstat.Spec[c09Case]{
 	Property: "C09",
-	Rule: "a 0..9000-byte underlying stream served in scheduled chunks (1..5000, optional data+error on the last chunk, terminal EOF or custom error) read through rwc.Conn with generated buffer sizes (0..4096) and 0-10 buffered packets; " +
+	Rule: "a 0..9000-byte underlying stream served in scheduled chunks (1..5000, optional data+error on the last chunk, terminal EOF or custom error) read through rwc.Conn with generated buffer sizes (0..4096) and 0-10 buffered packets, optionally interleaved with reads whose deadline has already passed (each returns data or a timeout, never both, and loses nothing); " +
 		"write side with partial underlying writes; oracle: concatenation of reads == the chunks the scripted reader handed out minus only the suffixes of reads that returned ErrShortBuffer, no reordering, exact terminal error; non-trivial = >=3 chunks with a short-buffer read or a custom terminal error",
 	Gen:   genC09,
 	Check: checkC09,
